@@ -456,7 +456,8 @@ def _enrich(rng, d):
         conts.insert(pos, sub)
     if rng.random() < 0.5:
         d['ptypes'].append({'name': 'BLOB_T', 'kind': 'bin', 'ref': 'MODE', 'use_cal': rng.choice([True, False]),
-                            'adj': [8, rng.choice([0, 8])]})
+                            # an attribute given as None is left out of <LinearAdjustment> (XTCE default: 0)
+                            'adj': rng.choice([[8, 0], [8, 8], [None, 16], [8, None], [1, 8]])})
         d['params'].append({'name': 'BLOB', 'type': 'BLOB_T'})
         kids = [c for c in conts if c['base'] == 'CCSDSPacket']
         rng.choice(kids)['entries'].append('BLOB')
